@@ -465,7 +465,7 @@ struct NP {
 		p[i]->bseen.insert(key);
 		bool isF = (m[0] == idF);
 		if (isF && m[2] == "1") {          // the first broadcast on the channel of Flip(): the share is revealed
-			if (p[i]->dev.kind == "crashopen") { p[i]->stop = true; throw HarnessStop(); }
+			if (p[i]->dev.kind == "crashopen" || p[i]->dev.kind == "tampercrash") { p[i]->stop = true; throw HarnessStop(); }
 			if (p[i]->dev.kind == "byz") return;
 			json ev; ev["e"] = "Open"; ev["i"] = i; Mpz v(m[4]); ev["a"] = num(v);
 			json st = json::array();
@@ -485,7 +485,7 @@ bool SimAio::Send(const std::vector<mpz_srcptr> &m, const size_t i_in, const tim
 	MemNet::Wire wire;
 	for (size_t k = 0; k < m.size(); k++) wire.push_back(mpz2s(m[k]));
 	if (kind == 1 && wire.size() == 5 && wire[3] == "1" && wire[1] == std::to_string(j)) w->on_own_broadcast(j, wire);
-	if (kind == 0 && w->p[j]->dev.kind == "tamper" && wire.size() == 1) {
+	if (kind == 0 && (w->p[j]->dev.kind == "tamper" || w->p[j]->dev.kind == "tampercrash") && wire.size() == 1) {
 		// faulty private link j -> i_in: the first message is the share, the second its companion
 		size_t cnt = w->p[j]->ptp[i_in]++;
 		int d = w->p[j]->dev.sd[i_in];
@@ -590,7 +590,8 @@ void NP::byz_body(size_t f) {
 }
 
 static json dev_j(const Dev &d, size_t n) {
-	json j; j["kind"] = d.kind; j["byz"] = (d.kind == "byz" || d.kind == "crash0" || d.kind == "crashopen" || d.kind == "lib");
+	json j; j["kind"] = d.kind;
+	j["byz"] = (d.kind == "byz" || d.kind == "crash0");      // broadcasts the complaint list of its record (others complain as the protocol says)
 	j["commit"] = d.commit; j["sd"] = d.sd; j["complain"] = d.complain; j["answer"] = d.answer; j["open"] = d.open;
 	j["recon"] = (d.kind == "honest" || d.kind == "tamper"); j["checked"] = (d.kind == "honest" || d.kind == "tamper");
 	(void)n; return j;
@@ -643,10 +644,10 @@ static void run_np(size_t n, size_t t, size_t trbc, std::vector<Dev> devs, const
 		if (d.kind == "lib") {      // the library's own deviating mode: which deviations it chose (its two coin tosses)
 			int flip_r = P.wpar.size() > 0 ? P.wpar[0] : 0, share_r = P.wpar.size() > 1 ? P.wpar[1] : 0;
 			(void)flip_r;
-			d.sd.assign(n, share_r ? 1 : 0); d.sd[i] = 0; d.answer = "wrong"; d.open = "wrong";
+			d.sd.assign(n, share_r ? 1 : 0); d.sd[i] = 0; d.answer = share_r ? "wrong" : "true"; d.open = "wrong";
 		}
 		if (d.kind == "crash0") { d.commit = false; d.sd.assign(n, 2); d.sd[i] = 0; d.answer = "ignore"; d.open = "none"; }
-		if (d.kind == "crashopen") { d.open = "none"; }
+		if (d.kind == "crashopen" || d.kind == "tampercrash") { d.open = "none"; }
 		json pj; pj["c"] = c; pj["h"] = h; polys.push_back(pj);
 		dj.push_back(dev_j(d, n));
 	}
@@ -661,19 +662,23 @@ static int main_np(unsigned long seed, long execs, const char *outp, const char 
 	long done = 0;
 	for (long x = 0; done < execs && x < 100 * execs; x++) {
 		seam::seed(seed * 7919UL + x); seam::seed_harness(seed * 1000003UL + x);
-		size_t n = 2 + rnd(6);
+		// two of ten executions are all-honest (n = 2..7); the others have deviating parties (n = 4..7), the first of
+		// which takes the deviation kinds in turn so that every kind occurs in every run
+		bool allhonest = (x % 10 == 0) || (x % 10 == 5);
+		size_t n = allhonest ? 2 + rnd(6) : 4 + rnd(4);
 		size_t trbc = (n - 1) / 3, tmax = (n - 1) / 2;
-		size_t t = (rnd(3) == 0) ? rnd(tmax + 1) : trbc;
+		size_t t = (rnd(3) == 0) ? (allhonest ? rnd(tmax + 1) : 1 + rnd(tmax)) : trbc;
 		size_t budget = std::min(t, trbc);                   // deviating parties tolerated by both layers
 		std::vector<Dev> devs; for (size_t i = 0; i < n; i++) devs.push_back(honest_dev(n));
 		std::string scen = "honest";
-		size_t ndev = budget ? rnd(budget + 1) : 0;
+		size_t ndev = allhonest ? 0 : (budget >= 2 && rnd(2) ? 2 : 1);
 		std::vector<size_t> who;
 		while (who.size() < ndev) { size_t f = rnd(n); if (std::find(who.begin(), who.end(), f) == who.end()) who.push_back(f); }
+		static unsigned long turn = 0;
 		for (size_t k = 0; k < who.size(); k++) {
 			size_t f = who[k]; Dev &d = devs[f];
 			size_t l1 = (f + 1 + rnd(n - 1)) % n;              // some other party
-			unsigned long c = rnd(14);
+			unsigned long c = (k == 0) ? (turn++ % 12) : rnd(12);
 			std::string label;
 			switch (c) {
 				case 0: d.kind = "lib"; break;
@@ -684,12 +689,13 @@ static int main_np(unsigned long seed, long execs, const char *outp, const char 
 					for (size_t c2 = 0; c2 < m; c2++) { size_t l = rnd(n); if (l != f) d.sd[l] = 1 + (int)rnd(2); }
 					break; }
 				case 4: d.kind = "tamper"; d.sd[l1] = 1; break;
+				case 5: d.kind = "tampercrash"; d.sd[l1] = 1 + (int)rnd(2); break;   // ... that answers the complaint and then withholds its opening
 				// designed deviations of a party that walks through the protocol
-				case 5: d.kind = "byz"; label = "byz-wrongshare-ignore-wrongopen"; d.sd[l1] = 1; d.answer = "ignore"; d.open = "wrong"; break;
-				case 6: d.kind = "byz"; label = "byz-noshare-ignore-noopen"; d.sd[l1] = 2; d.answer = "ignore"; d.open = "none"; break;
-				case 7: d.kind = "byz"; label = "byz-wrongshare-answer-wrongopen"; d.sd[l1] = 1; d.answer = "true"; d.open = "wrong"; break;
-				case 8: d.kind = "byz"; label = "byz-wrongshare-wronganswer"; d.sd[l1] = 1; d.answer = "wrong"; d.open = "true"; break;
-				case 9: d.kind = "byz"; label = "byz-falsecomplaint-noopen"; d.complain.push_back(l1); d.open = "none"; break;
+				case 6: d.kind = "byz"; label = "byz-wrongshare-ignore-wrongopen"; d.sd[l1] = 1; d.answer = "ignore"; d.open = "wrong"; break;
+				case 7: d.kind = "byz"; label = "byz-noshare-ignore-noopen"; d.sd[l1] = 2; d.answer = "ignore"; d.open = "none"; break;
+				case 8: d.kind = "byz"; label = "byz-wrongshare-answer-wrongopen"; d.sd[l1] = 1; d.answer = "true"; d.open = "wrong"; break;
+				case 9: d.kind = "byz"; label = "byz-wrongshare-wronganswer"; d.sd[l1] = 1; d.answer = "wrong"; d.open = "true"; break;
+				case 10: d.kind = "byz"; label = "byz-falsecomplaint-noopen"; d.complain.push_back(l1); d.open = "none"; break;
 				default: {  // ... and deviates at will
 					d.kind = "byz"; d.commit = rnd(8) != 0;
 					size_t m = rnd(t + 2);
